@@ -8,8 +8,11 @@ from ..jsonval import enc, dec
 from . import model as M
 from .model import NO
 
+# pairwise different under the documented identifications (list = tuple, bool = int, dict = list of pairs, path = its
+# text): a variable that moves between two identified values (e.g. () -> 5 -> []) is legitimately served the stored
+# result of the first one, which is not what plain execution returns
 VAR_VALUES = [
-    0, 1, 7, -3, 2 ** 40, 0.5, 2.0, "", "s", "é|x", True, False, (1, 2), (), [], [1, "a"], {}, {"k": 1, "j": [2]},
+    2, 3, 7, -3, 2 ** 40, 0.5, 2.0, "", "s", "é|x", True, False, (1, 2), [], [1, "a"], {"k": 1, "j": [2]},
     collections.OrderedDict([("o", 1)]), pathlib.PurePosixPath("a/b"), [[1], {"z": 0.5}],
 ]
 # no booleans here: True/1 and False/0 are documented as the same argument value (bool = int), so a result
@@ -25,6 +28,12 @@ def canon_key(v):
     return json.dumps(canon(v), sort_keys=True)
 
 
+def _assert_pool_distinct():
+    for pool in (VAR_VALUES, LIT_VALUES):
+        keys = [canon_key(v) for v in pool]
+        assert len(set(keys)) == len(keys), "generator pools must be pairwise distinct under the documented identifications"
+
+
 def _var_pool(opts):
     vals = list(VAR_VALUES)
     if "bool-tuple-var" in opts.get("exclude", ()):
@@ -36,6 +45,7 @@ def _var_pool(opts):
 def programs(draw, opts=None):
     """opts: dict(max_funcs, loads(bool), rt(bool), classes(bool), multiline(bool), exclude=set of feature tags)"""
     opts = opts or {}
+    _assert_pool_distinct()
     nmods = draw(st.integers(1, opts.get("max_mods", 3)))
     nfuncs = draw(st.integers(2, opts.get("max_funcs", 7)))
     prog = {"pkg": M.PKG, "mods": [f"m{i}" for i in range(nmods)], "vars": [], "funcs": [], "classes": [],
